@@ -1,5 +1,6 @@
 import XlModel.Cfb
 import XlModel.Crypt
+import XlModel.Sha1
 import XlModel.Generated.Facts
 import XlModel.Drv.Util
 namespace XlModel.Drv.C13
@@ -144,6 +145,36 @@ def step (w : List String) : String :=
       | .agile => "agile"
       | .panic => "PANIC"
     | _, _ => "bad-op"
+  | ["kds", salt, pw, kb] =>
+    match unhexS salt, unhexS pw, kb.toNat? with
+    | some sb, some pb, some keyBits =>
+      match String.fromUTF8? (ByteArray.mk (pb.map (fun c => UInt8.ofNat c.toNat)).toArray) with
+      | some str =>
+        match standardKey Sha1.sha1 (sb.map Char.toNat) (utf16le str.toList) keyBits with
+        | some k => "ok " ++ hexS (k.map Char.ofNat)
+        | none => "E_KEYLEN"
+      | none => "invalid"
+    | _, _, _ => "bad-op"
+  | ["kda", salt, pw, sp, kb, bk] =>
+    match unhexS salt, unhexS pw, sp.toNat?, kb.toNat?, unhexS bk with
+    | some sb, some pb, some spinCount, some keyBits, some bkb =>
+      match String.fromUTF8? (ByteArray.mk (pb.map (fun c => UInt8.ofNat c.toNat)).toArray) with
+      | some str =>
+        "ok " ++ hexS ((agileKey Sha1.sha1 (sb.map Char.toNat) (utf16le str.toList) (bkb.map Char.toNat)
+          spinCount keyBits).map Char.ofNat)
+      | none => "invalid"
+    | _, _, _, _, _ => "bad-op"
+  | ["openmap", _kind, _seed, ole, dec, zp, pwg, rd, pt] =>
+    let i : OpenIn := { hasOle := ole = "1", decOk := dec = "1", zipOk := zp = "1", pwGiven := pwg = "1",
+                        readOk := rd = "1", partsOk := pt = "1" }
+    let (content, err) := openReader i
+    let cls := match err with
+      | none => "none"
+      | some .fileFormat => "fileFormat"
+      | some .password => "password"
+      | some .zipErr => "other"
+      | some .later => "other"
+    s!"content={if content then 1 else 0} err={cls}"
   | ["u16", pw] =>
     match unhexS pw with
     | some bs =>
